@@ -54,7 +54,8 @@ def showItems (xs : List Nat) : String := ".".intercalate (xs.map toString)
 /-- Events produced by one model step = the growth of the ghost histories, in the order the code produces
     them within that step (callbacks, then the call, then the wait request, then the return). -/
 def events (s s' : St) : List String :=
-  (s'.fired.drop s.fired.length).map (fun w => s!"!{w}")
+  (s'.firedTake.drop s.firedTake.length).map (fun w => s!"!{w}")
+  ++ (s'.fired.drop s.fired.length).map (fun w => s!"!{w}")
   ++ (s'.dropped.drop s.dropped.length).map (fun w => s!"~{w}")
   ++ (s'.calls.drop s.calls.length).map (fun b => s!"c({showItems b})")
   ++ (s'.waits.drop s.waits.length).map (fun d => s!"w{d}")
@@ -147,13 +148,13 @@ def signature (s : St) (nops : Nat) : String :=
     let b (p : Bool) (t : String) : String := if p then t else ""
     s!"calls={min s.calls.length 6},rx={rxName s}"
       ++ b (s.mTruncated > 0) ",trunc" ++ b (s.mRetry > 0) ",retry" ++ b (s.mPanicked > 0) ",panic"
-      ++ b (s.mFailed > 0) ",fail" ++ b (!s.fired.isEmpty) ",fired" ++ b (!s.dropped.isEmpty) ",dropped"
+      ++ b (s.mFailed > 0) ",fail" ++ b (!s.fired.isEmpty) ",fired" ++ b (!s.firedTake.isEmpty) ",firedTake" ++ b (!s.dropped.isEmpty) ",dropped"
       ++ b (!s.senderAlive) ",closed" ++ b (s.callsPerBatch.any (· ≥ 11)) ",exhausted"
 
 def runBatcher (line : String) : String :=
   match Sexp.parse line with
   | some (.list [.atom "b", cap, .list (.atom "sp" :: sp), .list (.atom "ops" :: ops)]) =>
-    match cap.nat?, nats? sp, ops.mapM op? with
+    match cap.nat?.filter (· ≥ 1), nats? sp, ops.mapM op? with
     | some cap, some sp, some ops =>
       let cfg := Cfg.real cap
       let (s, toks) := runOps cfg sp init ops []
